@@ -230,6 +230,13 @@ func init() {
 	})
 	reg(ndPkg+".ExploreSchedules", func(in *Interp, fr *frame, a []Value) Value {
 		in.explore = a[0].(*Term).c != 0
+		if in.preemptionBound == 0 {
+			in.preemptionBound = 2
+		}
+		return nil
+	})
+	reg(ndPkg+".PreemptionBound", func(in *Interp, fr *frame, a []Value) Value {
+		in.preemptionBound = int(in.concInt(a[0]))
 		return nil
 	})
 	reg(ndPkg+".ExpectPanic", func(in *Interp, fr *frame, a []Value) Value {
